@@ -1,7 +1,7 @@
 (* C19 — lazy loading: opening is O(1) and key-only operations never read values.
    Lazy.v predicts the ReadAt calls of NewStore / GetItem / MinItem / MaxItem on an uncached store;
    the predictions are compared call by call with the implementation on every run. *)
-From GK Require Import Base Order Treap TreapSpec Codec CodecProofs Disk DiskProofs Lazy LazyProofs.
+From GK Require Import Base Order Treap TreapSpec Codec CodecProofs Disk DiskProofs Lazy LazyProofs LazyVisit.
 
 (* opening a file that ends in a root record reads the 24-byte trailer and the root record, nothing else:
    two reads inside the root record, whatever the file holds below it *)
@@ -48,3 +48,18 @@ Theorem c19_get_result : forall cmp f t l key wv fuel, cmp_laws cmp -> bst cmp t
   snd (get_reads fuel cmp f l key wv) = find cmp key (elems t).
 Proof. exact LazyProofs.L1_get_find. Qed.
 Print Assumptions c19_get_result.
+
+(* whole visits (VisitItemsAscend/Descend, Ex, iterators, Len) with withValue=false on an uncached tree: node
+   records, item headers and keys only; never a byte of any value *)
+Theorem c19_visit_reads_nodes_and_keys : forall cmp asc f t l target b fuel,
+  rep f t -> persisted t -> root_loc t = l -> (height t <= fuel)%nat ->
+  Forall (fun r => in_node t r \/ in_keypart t r) (fst (fst (visit_reads fuel cmp asc f l target false b))).
+Proof. exact LazyVisit.visit_reads_keyonly. Qed.
+Print Assumptions c19_visit_reads_nodes_and_keys.
+
+Theorem c19_visit_never_reads_values : forall cmp asc f t l target b fuel,
+  rep f t -> persisted t -> root_loc t = l -> (height t <= fuel)%nat -> records_disjoint t ->
+  forall r, In r (fst (fst (visit_reads fuel cmp asc f l target false b))) ->
+  forall q it, In (q, it) (item_locs t) -> rd_disjoint r (value_range q it).
+Proof. exact LazyVisit.visit_never_reads_values. Qed.
+Print Assumptions c19_visit_never_reads_values.
